@@ -62,7 +62,15 @@ pub fn check(r: &RunResult, rep: &mut Report) {
 				None => continue,
 			};
 			// the next request of this order after the fetch
-			let end_seq = ca.posts.iter().filter(|p| p.order == Some(o.id) && p.tx > fetch_tx).filter_map(|p| sendseq.get(&p.tx)).min().copied().unwrap_or(u64::MAX);
+			let mut end_seq = ca.posts.iter().filter(|p| p.order == Some(o.id) && p.tx > fetch_tx).filter_map(|p| sendseq.get(&p.tx)).min().copied().unwrap_or(u64::MAX);
+			// ... bounded by the end of that daemon run and by the certificate's next order (an attempt
+			// cut by a stop leaves no later request of this order; later orders re-use the identifier)
+			if let Some(s) = w.trace.iter().find(|e| e.seq > fetch_seq && matches!(&e.ev, Ev::Stopped { .. })).map(|e| e.seq) {
+				end_seq = end_seq.min(s);
+			}
+			if let Some(s) = ca.orders.iter().filter(|x| x.cert == o.cert && x.id > o.id).filter_map(|x| sendseq.get(&x.created_tx)).min() {
+				end_seq = end_seq.min(*s);
+			}
 			// the configured identifier this authorization is for
 			let wire = if az.wildcard { format!("*.{}", az.value) } else { az.value.clone() };
 			let cfg = cert.identifiers.iter().find(|i| expect::ident_wire(i).1 == wire);
